@@ -91,7 +91,7 @@ func smallNumber(v interface{}) {
 	case int64:
 		vf.Assume(x >= -2 && x <= 5 || x == -9223372036854775808 || x == 9223372036854775807)
 	case float64:
-		vf.Assume(x != x || x == 0 || x == 1 || x == 2.5 || x == -1 || x == 3 || x == 9223372036854775808.0 || x == -9223372036854775808.0 || x > 1e308 || x < -1e308)
+		vf.Assume(x != x || x == 0 || x == 1 || x == 2.5 || x == -1 || x == 3 || x == 0.5 || x == -0.5 || x == 9223372036854775808.0 || x == -9223372036854775808.0 || x > 1e308 || x < -1e308)
 	case primitive.Binary:
 		for _, b := range x.Data {
 			vf.Assume(b < 4)
@@ -215,9 +215,9 @@ func H_C20_apply_spec() {
 	doc := c20Doc("d")
 	p := pick("path", "a,a.b,a.0,b,")
 	op := pick("op", "$pull,$bit,$currentDate")
-	keys := "a,$gt,$in,$bogus"
+	keys := "a,$gt,$in,$bogus," // incl. the empty key
 	if op != "$pull" {
-		keys = "and,or,xor,$type,a"
+		keys = "and,or,xor,$type,a,"
 	}
 	v := c20Val("v", keys, 2, 2)
 	c20Apply(doc, bson.D{{Key: op, Value: bson.D{{Key: p, Value: v}}}}, nil, false)
